@@ -243,10 +243,18 @@ CHOICE_decode_oer(const asn_codec_ctx_t *opt_codec_ctx,
                 oer_open_type_get(opt_codec_ctx, elm->type,
                                   elm->encoding_constraints.oer_constraints,
                                   memb_ptr2, ptr, size);
-            if(got < 0) ASN__DECODE_FAILED;
-            if(got == 0) ASN__DECODE_STARVED;
-            rval.code = RC_OK;
-            rval.consumed = got;
+            /* The tag may already have been consumed by this very call:
+             * report it through the common accounting below. */
+            if(got < 0) {
+                rval.code = RC_FAIL;
+                rval.consumed = 0;
+            } else if(got == 0) {
+                rval.code = RC_WMORE;
+                rval.consumed = 0;
+            } else {
+                rval.code = RC_OK;
+                rval.consumed = got;
+            }
         } else {
             rval = elm->type->op->oer_decoder(
                 opt_codec_ctx, elm->type,
